@@ -492,7 +492,8 @@ def discharge_all(obligs, timeout_ms, workers=16, cover_timeout_ms=3000):
         if ob.kind == "cover":
             jobs.append(((ob.name, smt.to_smt2(ob.hyps, ob.goal), -cover_timeout_ms), ob))
             continue
-        jobs.append(((ob.name, smt.to_smt2(ob.hyps, ob.goal), timeout_ms), ob))
+        first = ("cvc5",) if "[cvc5-first]" in (ob.note or "") else ()
+        jobs.append(((ob.name, smt.to_smt2(ob.hyps, ob.goal), timeout_ms) + first, ob))
     results = {}
     for k, v in trivial.items():
         results.setdefault(k, []).extend(v)
